@@ -3,8 +3,8 @@ import itertools, random, socket, struct
 from vlib import core, corr
 
 AREA = "C10"
-MODULES = ["TinsModel.Props.C10"]
-AUDIT = "Audit/C10.lean"
+MODULES = ["TinsModel.Props.C10", "TinsModel.Props.Limits.C10"]   # + the constants / limits tied to the source (translator/gen_limits.py)
+AUDIT = ["Audit/C10.lean", "Audit/LimitsC10.lean"]
 LEVEL = "proof"
 HARNESS = "c10_dns"
 HARNESS_FLAGS = ["-fno-access-control"]          # the harness prints records_data_ and the three section offsets
@@ -652,6 +652,8 @@ def build():
 
 
 def run(chk):
+    from translator import gen_limits
+    gen_limits.main([])          # Gen/Limits.lean: constants and limits read from the current source
     problems = chk.prove(MODULES, AUDIT, want_leanchecker=(chk.tier == "thorough"))
     exe, err = build()
     if exe is None:
@@ -677,7 +679,11 @@ def run(chk):
     go(malformed_cases(rng))
     go(soa_cases(rng, quick))
     go(label_count_cases())
-    go([chain_case(rng, d) for d in (2, 5, 31, 32, 33, 40)])
+    # pointer chains around the documented cap (31 jumps resolved, the 32nd is a loop) and around the cap the source
+    # currently has (Gen/Limits: `pointer_counter++ > CAP`), so a changed cap is crossed on either side
+    cap = gen_limits.values().get("dnsPointerJumpCap")
+    depths = {2, 5, 31, 32, 33, 40} | ({cap, cap + 1, cap + 2, cap + 3} if cap is not None and cap < 2000 else set())
+    go([chain_case(rng, d) for d in sorted(depths)])
     go([realistic_case(rng) for _ in range(300 if quick else 3000)])
     go(exhaustive_cases(rng, 2, 10**9) + (exhaustive_cases(rng, 3, 10**9) if not quick else []))
     # seeded random histories
